@@ -337,7 +337,8 @@ def body(case, ctx):
         fields = {'code': want, 'message': case.get('message'), 'detail': case.get('detail'), 'error_type': case.get('error_type')}
         if case['cls'] == 'MethodNotAllowed':
             fields['detail'] = None
-        fmt = check_error_body(ctx, r, fields, accept, rc, what, html_fields=not case['cls'].startswith('Contextual'))
+        fmt = check_error_body(ctx, r, fields, accept, rc, what, html_fields=not case['cls'].startswith('Contextual'),
+                               dynamic=[case.get('detail'), case.get('message'), case.get('error_type')])
         if fmt and needs_escaping(fmt, [case.get('detail'), case.get('message'), case.get('error_type')]):
             ctx.nt(rc, sample=len(ctx.samples) < 3)
         ctx.event('fmt-%s' % fmt)
